@@ -208,10 +208,14 @@ def rule_GE(ctx):
     ret = [n for n in ast.walk(rot) if isinstance(n, ast.Return)][0]
     rp = au.params(rot)
 
+    tr = find('_c_, _s_ = (np.cos, np.sin)', rot)
+    cn = tr[0][1]['_c_'] if tr else 'cos'
+    sn = tr[0][1]['_s_'] if tr else 'sin'
+
     def R(a, e):     # degrees
         lf = Lifter({rp[0]: a, rp[1]: e},
-                    {'cos': lambda x: sp.cos(x * sp.pi / 180),
-                     'sin': lambda x: sp.sin(x * sp.pi / 180)},
+                    {cn: lambda x: sp.cos(x * sp.pi / 180),
+                     sn: lambda x: sp.sin(x * sp.pi / 180)},
                     em.rel, strict=True)
         return sp.Matrix([lf.lift(x) for x in ret.value.args[0].elts])
     # point_to_dipole
@@ -252,9 +256,20 @@ def rule_GE(ctx):
     sq = em.func('point_to_square_loop')
     sp_ = au.params(sq)
     t = ast.unparse(sq).replace(' ', '')
+    stk = find(f'_p_ = {sp_[0]}[:3] + np.stack([_h_, _v_, -_h_, -_v_, _h_])',
+               sq)
+    ctx.check('C10.GE.loop', 'square loop closed and ordered', len(stk) == 1,
+              'loop is not hor, ver, -hor, -ver, hor around the centre '
+              '(closed, counter-clockwise about the normal)',
+              ctx.where(em, sq))
+    ctx.anchor(len(stk) == 1, 'corner stack of the square loop')
+    HOR, VER = stk[0][1]['_h_'], stk[0][1]['_v_']
+    hsc = find(f'{HOR} = rotation(__, __) * _d_', sq)
+    ctx.anchor(len(hsc) == 1, 'loop axis times half diagonal')
+    HD = hsc[0][1]['_d_']
     hd = [n for n in sq.body if isinstance(n, ast.Assign) and
-          ast.unparse(n.targets[0]) == 'half_diag']
-    ctx.anchor(len(hd) == 1, 'half_diag in point_to_square_loop')
+          ast.unparse(n.targets[0]) == HD]
+    ctx.anchor(len(hd) == 1, 'half diagonal in point_to_square_loop')
     A = sp.Symbol('A', positive=True)
     hv = Lifter({sp_[1]: A}, {}, em.rel, strict=True).lift(hd[0].value)
     ctx.check('C10.GE.loop', 'square loop area = 2 half_diag^2',
@@ -264,7 +279,7 @@ def rule_GE(ctx):
     calls = {ast.unparse(n.targets[0]): n.value for n in sq.body
              if isinstance(n, ast.Assign) and 'rotation(' in
              ast.unparse(n.value)}
-    ctx.anchor({'xyz_hor', 'xyz_ver'} <= set(calls), 'loop axes')
+    ctx.anchor({HOR, VER} <= set(calls), 'loop axes')
     vecs = {}
     for k, v in calls.items():
         c = [x for x in ast.walk(v) if isinstance(x, ast.Call) and
@@ -273,7 +288,7 @@ def rule_GE(ctx):
                     strict=True)
         a_, e_ = lf.lift(c.args[0]), lf.lift(c.args[1])
         vecs[k] = R(a_, e_)
-    hor, ver = vecs['xyz_hor'], vecs['xyz_ver']
+    hor, ver = vecs[HOR], vecs[VER]
     normal = hor.cross(ver)
     want = R(az, el)
     ok = all(equal(sp.simplify(normal[i]), sp.simplify(want[i]))
@@ -282,15 +297,9 @@ def rule_GE(ctx):
               ok, f'hor x ver = {list(sp.simplify(normal))} is not the '
               'dipole direction', ctx.where(em, sq),
               sample={'normal': [str(sp.simplify(x)) for x in normal]})
-    ctx.check('C10.GE.loop', 'square loop closed and ordered',
-              has(f'_p_ = {sp_[0]}[:3] + np.stack([xyz_hor, xyz_ver, '
-                  '-xyz_hor, -xyz_ver, xyz_hor])', sq),
-              'loop is not hor, ver, -hor, -ver, hor around the centre '
-              '(closed, counter-clockwise about the normal)',
-              ctx.where(em, sq))
-    for k in ('xyz_hor', 'xyz_ver'):
-        ctx.check('C10.GE.loop', f'square loop: {k} scaled by the half '
-                  'diagonal', has(f'{k} = rotation(__, __) * half_diag', sq),
+    for k in (HOR, VER):
+        ctx.check('C10.GE.loop', f'square loop: axis scaled by the half '
+                  'diagonal', has(f'{k} = rotation(__, __) * {HD}', sq),
                   'loop axis is not direction times half diagonal',
                   ctx.where(em, sq))
     # Dipole coordinate formats
